@@ -470,4 +470,31 @@ example : (parseToUnicodeBytes [47, 67, 73, 68, 73, 110, 105, 116, 32, 47, 80, 1
     ).map Except.toOption = some (some [(0x11, [0x66, 0x69]), (0x10, [0x3042]), (2, [0x1F600]), (0x41, [0x41])]) := by
   decide +kernel
 
+/-! ## Round 6: ToUnicode is consulted with the CID (open finding `tounicode-keyed-by-cid`) -/
+
+/-- What ISO 32000-1 9.10.3 demands: the text of each character CODE of the string, looked up in the ToUnicode map
+by the code. -/
+def specText (codes : List Bytes) (m : UMap) : List (Option (List Nat)) := codes.map (fun c => m.lookup (nunpack c : Int))
+
+/-- `_partial`: holds for the identity CMaps only (Identity-H/V, DLIdent-H/V), where the CID **is** the code: the
+text of every shown string is the ToUnicode text of its two-byte codes.  Missing: every table CMap (the predefined
+CJK CMaps) — see `tounicode_keyed_by_cid_cex`. -/
+theorem tounicode_text_identity_partial (m : UMap) (s : Bytes) :
+    shownText identityDecode m s = (specIdentity 2 s).map (fun (code : Nat) => m.lookup (code : Int)) := by
+  simp [shownText, toUnichr, identity_segment]
+
+def cexRoot : TDict := [(0x82, .node [(0xA2, .leaf 845)])]
+def cexMap : UMap := [(0x82A2, [0x3044])]
+
+/-- Proved counter-example for the full statement (pinned behaviour, finding `tounicode-keyed-by-cid`): with the
+encoding 90ms-RKSJ-H (code `82A2` ↦ CID 845) and a ToUnicode CMap `<82A2> <3044>`, the shown string `82A2` gets no
+text at all (`(cid:845)`), although its code is mapped to U+3044. -/
+theorem tounicode_keyed_by_cid_cex :
+    trieDecode cexRoot [0x82, 0xA2] = [845] ∧
+    shownText (trieDecode cexRoot) cexMap [0x82, 0xA2] = [none] ∧ specText [[0x82, 0xA2]] cexMap = [some [0x3044]] := by
+  decide
+
+example : shownText identityDecode [(0x3042, [0x3042]), (0x41, [0x66, 0x69])] [0x00, 0x41, 0x30, 0x42, 0x00, 0x07]
+    = [some [0x66, 0x69], some [0x3042], none] := by decide
+
 end PdfVerif.Props.C07
